@@ -331,6 +331,9 @@ def state_predicates(tr, res):
         out['workflow_queued'] = bool(tr.queue_shadow)
         out['task_running'] = any(tr.alloc_live.values())
         out['same_step_admissions'] = _same_step_admissions(tr) >= 2
+        out['hot_usage_exceeded_threshold'] = getattr(tr, 'max_hot_frac', 0.0) > 0.6 + 1e-12
+        out['tiering_started_without_exceeding_threshold'] = bool(
+            getattr(tr, 'tiering_without_exceeding', False))
         out['refused_for_buffer_room'] = any(
             c.get('ret') is False and _buffer_refusal(c, sp['obs'][n])
             for n, o in tr.obs.items() for c in o['checks'])
